@@ -72,7 +72,7 @@ fn strong_case(cfg: &Config, idx: u64, r: &mut Rng, st: &mut Stats) {
     // arbitrary programs: unsafe rules, large arithmetic
     let mut o = ProgOpts::default();
     o.safe = r.chance(1, 2);
-    o.term_depth = 2;
+    o.term_depth = if r.chance(1, 2) { 2 } else { 1 };
     o.max_rules = 2;
     o.extreme_numerals = r.chance(1, 6);
     let l = gen_program(r, &o);
@@ -101,7 +101,12 @@ fn strong_case(cfg: &Config, idx: u64, r: &mut Rng, st: &mut Stats) {
         st.sample(origin.clone());
     }
     let pool = if r.chance(1, 2) { small_pool() } else { default_pool() };
+    let case_started = Instant::now();
     for k in 0..cfg.pick(8, 12) {
+        if case_started.elapsed() > Duration::from_millis(cfg.pick(1500, 6000)) {
+            st.inc("strong_cases_cut_short_by_case_time_cap");
+            break;
+        }
         let (h, t) = if k % 6 == 5 { gen_pair_any(r, &preds, &pool) } else { gen_ht(r, &preds, &pool, 0) };
         let j = ht_as_classical(&h, &t);
         for prefix in ["forward", "backward"] {
@@ -148,13 +153,19 @@ fn external_case(cfg: &Config, idx: u64, r: &mut Rng, st: &mut Stats) {
 
 pub fn run(cfg: &Config) -> i32 {
     let started = Instant::now();
-    let budget = Duration::from_secs_f64(cfg.pick(30.0, 300.0) * cfg.scale);
+    let budget = Duration::from_secs_f64(cfg.pick(13.0, 200.0) * cfg.scale);
+    let t0 = Instant::now();
     let mut stats = parallel(cfg, "strong", cfg.scaled(cfg.pick(600, 1_000_000)), budget, |idx, r, st| strong_case(cfg, idx, r, st));
-    let s2 = parallel(cfg, "external", cfg.scaled(cfg.pick(800, 1_000_000)), budget, |idx, r, st| external_case(cfg, idx, r, st));
+    stats.add("wall_ms_strong", t0.elapsed().as_millis() as u64);
+    let t1 = Instant::now();
+    let s2 = parallel(cfg, "external", cfg.scaled(cfg.pick(4000, 1_000_000)), budget, |idx, r, st| external_case(cfg, idx, r, st));
     stats.merge(s2);
+    stats.add("wall_ms_external", t1.elapsed().as_millis() as u64);
+    let t2 = Instant::now();
     // model-guided interpretations for external tasks (stable models of either side), see C02
-    let s3 = parallel(cfg, "external_guided", cfg.scaled(cfg.pick(600, 1_000_000)), budget, |idx, r, st| crate::monitors::c02::guided_flag_case(cfg, idx, r, st));
+    let s3 = parallel(cfg, "external_guided", cfg.scaled(cfg.pick(3000, 1_000_000)), budget, |idx, r, st| crate::monitors::c02::guided_flag_case(cfg, idx, r, st));
     stats.merge(s3);
+    stats.add("wall_ms_external_guided", t2.elapsed().as_millis() as u64);
     finish(
         cfg,
         started,
@@ -163,7 +174,7 @@ pub fn run(cfg: &Config) -> i32 {
             level: "exploration",
             rule: "strong-equivalence tasks over arbitrary programs (unsafe rules, extreme numerals) and external-equivalence tasks (tightness bypassed), each built under all 8 combinations of decomposition x simplify x eq-break; for every sampled interpretation (random, from HT pairs, and guided by stable models of either side) 'some problem of the direction has all axioms true and the conjecture false' must have the same definite value in all 8 families; a non-trivial case is a (task, direction, interpretation) with at least two definite families".into(),
             assumptions: vec!["evaluator as in C01; no reference semantics of programs is used for the verdict".into()],
-            floor: cfg.pick(10_000, 80_000),
+            floor: cfg.pick(30_000, 200_000),
             floor_counter: "definite_family_comparisons".into(),
             known_replayed: vec![],
             extra: J::obj(),
